@@ -106,8 +106,8 @@ func casesFor(sh *shape, op string) []caseDef {
 // the quick tier explores the same product over this subset of the shapes
 var quickShapes = map[string]bool{
 	"lin3/plain": true, "lin3/lfs": true,
-	"merge/plain": true, "merge/modes": true, "merge/lfs": true, "merge/tracked": true,
-	"fork/modes": true, "fork/tracked": true,
+	"merge/plain": true, "merge/modes": true, "merge/lfs": true,
+	"fork/tracked": true,
 	"pushed/lfs": true, "exotic-msg/lfs": true,
 }
 
@@ -234,6 +234,7 @@ func (ev *env) pathSelected(ps pathSel, sh *shape) map[string]bool {
 // the oracle
 
 type judge struct {
+	w        *gitx.World
 	viol     []vx.Violation
 	seen     map[string]bool
 	counters map[string]int64
@@ -377,8 +378,11 @@ func (j *judge) checkRefs(before, after *snap, rng map[string]bool, movedBranch 
 			if tb.msg != ta.msg {
 				j.bad("C12:tag-changed:message:"+msgClass(tb.msg, ta.msg), fmt.Sprintf("%s: tag message %q became %q", name, tb.msg, ta.msg), nil)
 			}
-			if !rng[idB] && tb.id != ta.id {
-				j.bad("C12:shape:unselected-tag-rewritten", fmt.Sprintf("%s: tag object replaced although its commit %s is outside the selected range", name, short(idB)), nil)
+			if tb.typ != ta.typ {
+				j.bad("C12:tag-changed:type", fmt.Sprintf("%s: tag object type %q became %q", name, tb.typ, ta.typ), nil)
+			}
+			if !rng[idB] && i == len(chB)-1 && tb.object != ta.object {
+				j.bad("C12:shape:unselected-tag-retargeted", fmt.Sprintf("%s: tag points at %s now although its commit %s is outside the selected range", name, short(ta.object), short(idB)), nil)
 			}
 		}
 		if name == movedBranch {
@@ -476,10 +480,15 @@ func (j *judge) compareTrees(op, kind string, before, after *snap, o, n string, 
 		if ln.why != "" {
 			if op == "export" && lo.isPtr && eo.id == en.id {
 				// the pointer was not touched and resolved before the export: the object was deleted by the prune that export ends with
-				j.bad("C12:content-unresolvable:export:object-pruned:"+pruneCause(before, p, eo.id), fmt.Sprintf("commit %s -> %s: %q is an LFS pointer that the export left alone, but %s now (it was there before the export)", short(o), short(n), p, ln.why), nil)
+				cause, excused := pruneCause(j.w, before, eo.id)
+				if excused {
+					j.count("export-pruned-object-introduced-only-by-pushed-commits (documented prune behaviour, not demanded)")
+					continue
+				}
+				j.bad("C12:content-unresolvable:export:object-pruned:"+cause, fmt.Sprintf("commit %s -> %s: %q is an LFS pointer that the export left alone, but %s now (it was there before the export)", short(o), short(n), p, ln.why), nil)
 				continue
 			}
-			j.bad("C12:content-unresolvable:"+tag+":"+cls, fmt.Sprintf("commit %s -> %s: %q is a pointer now but %s", short(o), short(n), p, ln.why), nil)
+			j.bad("C12:content-unresolvable:"+tag+":"+cls, fmt.Sprintf("commit %s -> %s: %q cannot be read back: %s", short(o), short(n), p, ln.why), nil)
 			continue
 		}
 		if !bytes.Equal(lo.data, ln.data) {
@@ -519,47 +528,74 @@ func (j *judge) compareTrees(op, kind string, before, after *snap, o, n string, 
 	return changed
 }
 
-// pruneCause classifies how the pointer blob at path p entered the old history: every commit that has it while
-// its first parent does not is an introduction.
-func pruneCause(before *snap, p, blob string) string {
-	cause := map[string]bool{}
+// pruneCause classifies why the prune that ends an export may have dropped the object of the (untouched) pointer blob:
+// every (commit, path) that has the blob while the commit's first parent does not have it there is an introduction.
+// excused = every introduction lies in a commit that exists on a configured remote: prune is documented to delete
+// local copies of objects it believes to be on the remote, so local resolvability is not demanded there.
+func pruneCause(w *gitx.World, before *snap, blob string) (cause string, excused bool) {
+	kinds := map[string]bool{}
+	pushed := before.pushedCommits(w)
+	allPushed := true
+	gitlink := false
 	for id, c := range before.commits {
-		e, ok := before.files[id][p]
-		if !ok || e.id != blob {
-			continue
-		}
-		switch {
-		case len(c.parents) == 0:
-			cause["added-in-root-commit"] = true
-		case len(c.parents) > 1:
-			all := true
-			for _, par := range c.parents {
-				if pe, ok := before.files[par][p]; !ok || pe.id != blob {
-					all = false
+		for p, e := range before.files[id] {
+			if e.mode == "160000" {
+				gitlink = true
+			}
+			if e.id != blob {
+				continue
+			}
+			kind := ""
+			switch {
+			case len(c.parents) == 0:
+				kind = "added-in-root-commit"
+			case len(c.parents) > 1:
+				for _, par := range c.parents {
+					if pe, ok := before.files[par][p]; !ok || pe.id != blob {
+						kind = "introduced-or-carried-by-merge"
+					}
+				}
+			default:
+				pe, ok := before.files[c.parents[0]][p]
+				switch {
+				case ok && pe.id == blob:
+				case !ok:
+					kind = "added"
+				case pe.mode == "100644" || pe.mode == "100755":
+					if _, _, isPtr := asPointer(before.blobs[pe.id]); isPtr {
+						kind = "pointer-replaces-pointer"
+					} else if bytes.IndexByte(before.blobs[pe.id], 0) >= 0 {
+						kind = "pointer-replaces-binary-blob"
+					} else {
+						kind = "pointer-replaces-text-blob"
+					}
+				default:
+					kind = "typechange"
 				}
 			}
-			if !all {
-				cause["introduced-or-carried-by-merge"] = true
-			}
-		default:
-			pe, ok := before.files[c.parents[0]][p]
-			switch {
-			case ok && pe.id == blob:
-			case !ok:
-				cause["added"] = true
-			case bytes.IndexByte(before.blobs[pe.id], 0) >= 0:
-				cause["pointer-replaces-binary-blob"] = true
-			default:
-				cause["pointer-replaces-text-blob"] = true
+			if kind != "" {
+				kinds[kind] = true
+				if !pushed[id] {
+					allPushed = false
+				}
 			}
 		}
 	}
+	if len(kinds) > 0 && allPushed {
+		return "pushed-commits-only", true
+	}
+	if len(kinds) == 1 && kinds["pointer-replaces-binary-blob"] {
+		return "pointer-replaces-binary-blob", false
+	}
+	if gitlink {
+		return "gitlink-in-history", false
+	}
 	var ks []string
-	for k := range cause {
+	for k := range kinds {
 		ks = append(ks, k)
 	}
 	sort.Strings(ks)
-	return strings.Join(ks, "+")
+	return strings.Join(ks, "+"), false
 }
 
 func trunc(b []byte) string {
@@ -631,7 +667,7 @@ func (ev *env) runCase(x *vx.X) vx.Result {
 	id := fmt.Sprintf("%s|%s|%s|%s", sh.name, op, cd.ps.name, cd.rs.name)
 	sample := map[string]interface{}{"shape": sh.name, "op": op, "path_selection": cd.ps.name, "ref_selection": cd.rs.name}
 	res := vx.Result{Sample: sample, Counters: map[string]int64{}}
-	j := &judge{seen: map[string]bool{}, counters: res.Counters}
+	j := &judge{w: ev.w, seen: map[string]bool{}, counters: res.Counters}
 
 	return ev.doCase(sh, op, cd, id, sample, res, j)
 }
@@ -947,7 +983,7 @@ func TestVerifC12(t *testing.T) {
 	if n, err := strconv.Atoi(os.Getenv("VERIF_C12_WORKERS")); err == nil && n > 0 {
 		workers = n
 	}
-	e := &vx.Explorer{Name: "C12", Workers: workers, BoundEnv: 0, BoundSch: 0, BoundSum: -1, Run: ev.runExplore, Deadline: c.DeadlineAfter(150*time.Second, 23*time.Minute)}
+	e := &vx.Explorer{Name: "C12", Workers: workers, BoundEnv: 0, BoundSch: 0, BoundSum: -1, Run: ev.runExplore, Deadline: c.DeadlineAfter(160*time.Second, 23*time.Minute)}
 	st := e.Explore()
 	ev.mu.Lock()
 	nb := len(ev.bstate)
